@@ -3,6 +3,7 @@ import OmplModel.Proofs.PlannerReport
 import OmplModel.Proofs.RRT
 import OmplModel.Proofs.RRTHistory
 import OmplModel.Proofs.GoalStates
+import OmplModel.Proofs.RRTConnectHistory
 import OmplModel.Proofs.RRTConnect
 import OmplModel.Proofs.RRTReal
 import OmplModel.Proofs.LazyPRM
@@ -957,6 +958,44 @@ theorem lazyprm_goalstates_real (cfg : LazyPRM.Cfg S D) (goals : Array S) (dflt 
 
 end GoalStatesSec
 
+
+/-! ## L2bh: histories of one RRTConnect object (round 11; `Model/RRTConnectHistory.lean`) -/
+
+section RRTConnectHistory
+
+/-- a history of length one on a fresh object (whatever `startTree_` is) is the single-call model -/
+theorem rrtconnect_history_first_call (cfg : RRTConnect.Cfg S D) (starts : Array S) (ptc : Nat) (startTree : Bool)
+    (script : List S) :
+    RRTConnect.solveFrom cfg starts { startTree := startTree } ptc script = RRTConnect.solve cfg starts ptc startTree script :=
+  (RRTConnect.solve_eq_solveFrom cfg starts ptc startTree script).symm
+
+/-- **Every history of one RRTConnect object**: for every configuration, start set, range and EVERY finite sequence of
+calls (`solve` with any termination count and script — resumed on the kept trees, goals re-sampled through the kept
+`PlannerInputStates` counters —, `clear`, `addStartState`, `setRange`, `clearSolutionPaths`) on a fresh planner and a
+problem definition without solutions: (1) both trees keep their invariant (start-tree roots are filtered starts, goal-tree
+roots filtered goal samples, every edge a justified motion in path direction); (2) the report of every `solve` is
+truthful (`RepReal`: EXACT with `addSolutionPath(path, false, 0)` and a path from a filtered start along justified motions
+to a filtered goal sample with an accepted (start, goal) pair; APPROXIMATE with a start-tree branch and `dif` its goal
+distance; anything else adds nothing) with respect to the start states held at the end and to the goal as the planner
+sees it in that epoch (`shiftGoal b`: the goal object's own `samplePosition_` is not reset by `planner.clear()`, so after a
+clear the planner's `k`-th sample is the goal's `(b + k)`-th); (3) every solution the problem definition holds at the end
+was registered by one of these reports. -/
+theorem rrtconnect_history_real (cfg : RRTConnect.Cfg S D) (starts : Array S) (range : D)
+    (ops : List (RRTConnect.Op S D)) :
+    let res := RRTConnect.runOps cfg (RRTConnect.World.fresh starts range) ops
+    RRTConnect.WInv cfg res.1 ∧
+      (∀ r ∈ res.2, ∃ b, RRTConnect.RepReal (cfg.shiftGoal b) res.1.pd.starts r) ∧
+      (∀ sol ∈ res.1.pd.solutions, ∃ r ∈ res.2, RRTConnect.FromReport cfg.zero r sol) := by
+  intro res
+  obtain ⟨b1, _, b3, b4⟩ := RRTConnect.runOps_spec cfg ops (RRTConnect.World.fresh starts range)
+    (RRTConnect.fresh_inv cfg starts range)
+  refine ⟨b1, b3, fun sol hs => ?_⟩
+  rcases b4 sol hs with h | h
+  · simp [RRTConnect.World.fresh] at h
+  · exact h
+
+end RRTConnectHistory
+
 /-! ### non-vacuity: a toy world on the number line
 
 States are naturals, the range is 2, landing on 5 is invalid, the goal is 6 with threshold 1 (so only 6
@@ -1146,5 +1185,14 @@ example : (RRTConnect.solve (toyCg #[5, 12, 6]) #[30, 5, 0] 9 true [9, 9, 9, 9, 
     (RRTConnect.solve (toyCg #[5, 12, 6]) #[30, 5, 0] 9 true [9, 9, 9, 9, 9, 9]).added = some ([0, 2, 4, 6, 8, 10, 12], false, 0) ∧
     (RRTConnect.solve (toyCg #[5, 12, 6]) #[30, 5, 0] 9 true [9, 9, 9, 9, 9, 9]).pis.sampledGoalsCount = 2 ∧
     (RRTConnect.solve (toyCg #[5, 25]) #[30, 5, 0] 9 true [9, 9, 9]).status = .invalidGoal := by decide
+
+/-! ### non-vacuity for RRTConnect histories: interrupted (TIMEOUT, trees kept), resumed on the kept trees (exact),
+`clear()`, a start added, solved again from both starts -/
+def toyOpsC : List (RRTConnect.Op Nat Nat) :=
+  [.solve 1 [9], .solve 5 [9, 9], .clear, .addStart 8, .solve 5 [9, 9]]
+
+example : (RRTConnect.runOps (toyC false 12 1) (RRTConnect.World.fresh #[30, 5, 0] 2) toyOpsC).2.map (fun r => (r.status, r.added.map (·.1)))
+    = [(.timeout, none), (.exactSolution, some [0, 2, 4, 6, 8, 8, 10, 12]),
+       (.exactSolution, some [8, 10, 12])] := by decide
 
 end OmplModel.Props.C01
